@@ -157,6 +157,42 @@ func runC01(c *eng.Ctx) {
 		c.Undecided("GUARD-cookie-overwrite", "discovery", token.NoPos, "no function in weed/storage both appends a needle and Puts it into the needle map")
 	}
 
+	// (1b) the "unchanged, skip the write" shortcut is taken only for byte-identical content
+	if fn := c.NeedFunc("weed/storage", "(*Volume).isFileUnchanged"); fn != nil {
+		var trues []ssa.Instruction
+		for _, r := range eng.Find(fn, eng.IsReturn) {
+			for _, v := range eng.Resolve(r.(*ssa.Return).Results[0]) {
+				if b, ok := eng.ConstBool(v); ok && b {
+					trues = append(trues, r)
+				} else if !ok {
+					trues = append(trues, r) // computed result: must be guarded as well
+				}
+			}
+		}
+		if len(trues) == 0 {
+			c.Undecided("GUARD-unchanged", eng.FuncName(fn), fn.Pos(), "no `return true` found")
+		}
+		dataEq := func(cond ssa.Value) (bool, bool) {
+			call, ok := cond.(*ssa.Call)
+			if !ok || !eng.CalleeIs(call, "bytes.Equal") {
+				return false, false
+			}
+			if eng.MentionsField(call.Call.Args[0], "Needle.Data") && eng.MentionsField(call.Call.Args[1], "Needle.Data") {
+				return true, true
+			}
+			return false, false
+		}
+		cookieEq := cookieCmpAtom(func(v ssa.Value) bool {
+			if !isCookieLoad(v) {
+				return false
+			}
+			_, isParam := eng.FieldBase(v).(*ssa.Parameter)
+			return isParam
+		})
+		c.Guard("GUARD-unchanged", "same-bytes", fn, eng.Entry(fn), trues, eng.PassEdges(fn, dataEq), "a write is skipped as 'unchanged' only when the stored data bytes equal the new ones (a checksum match is not enough)")
+		c.Guard("GUARD-unchanged", "same-cookie", fn, eng.Entry(fn), trues, eng.PassEdges(fn, cookieEq), "a write is skipped as 'unchanged' only when the cookies match")
+	}
+
 	// (2) read-only guards in Store
 	commitSite := map[*ssa.Function]bool{}
 	for _, fn := range P.SrcFuncs("weed/storage") {
